@@ -50,22 +50,21 @@ theorem pushOrder_mono {s s' : QState} {ev : Ev} (h : step s ev = some s') : ∀
   | clone => have := congrArg Core.pushOrder (other_core h (by intro p; simp) (by intro c; simp)); simp only [core] at this; rw [this]; exact he
   | dropHandle => have := congrArg Core.pushOrder (other_core h (by intro p; simp) (by intro c; simp)); simp only [core] at this; rw [this]; exact he
   | forget => have := congrArg Core.pushOrder (other_core h (by intro p; simp) (by intro c; simp)); simp only [core] at this; rw [this]; exact he
+  | setSubscriber b => have := congrArg Core.pushOrder (other_core h (by intro p; simp) (by intro c; simp)); simp only [core] at this; rw [this]; exact he
   | dropJoinBegin => have := congrArg Core.pushOrder (other_core h (by intro p; simp) (by intro c; simp)); simp only [core] at this; rw [this]; exact he
   | dropJoinUnpark => have := congrArg Core.pushOrder (other_core h (by intro p; simp) (by intro c; simp)); simp only [core] at this; rw [this]; exact he
   | dropJoinEnd => have := congrArg Core.pushOrder (other_core h (by intro p; simp) (by intro c; simp)); simp only [core] at this; rw [this]; exact he
 
-/-- every `report` in the history directly follows a `next … Validation`, and only when no tracing
-subscriber is installed -/
-def ReportsOk (ns : Bool) (log : List Obs) : Prop :=
-  ∀ pre post, log = pre ++ Obs.report :: post →
-    ns = true ∧ ∃ pre' e, pre = pre' ++ [Obs.next e .validation]
+/-- every `report` in the history directly follows a `next … Validation` -/
+def ReportsOk (log : List Obs) : Prop :=
+  ∀ pre post, log = pre ++ Obs.report :: post → ∃ pre' e, pre = pre' ++ [Obs.next e .validation]
 
 /-- every `next e r` in the history is a pushed entry with its scripted result -/
 def NextsOk (s : QState) : Prop :=
   ∀ e r, Obs.next e r ∈ s.log → e ∈ s.pushOrder ∧ r = s.res e
 
-theorem reportsOk_append_plain {ns : Bool} {log added : List Obs} (h : ReportsOk ns log)
-    (ha : Obs.report ∉ added) : ReportsOk ns (log ++ added) := by
+theorem reportsOk_append_plain {log added : List Obs} (h : ReportsOk log)
+    (ha : Obs.report ∉ added) : ReportsOk (log ++ added) := by
   intro pre post heq
   rcases List.append_eq_append_iff.mp heq with ⟨a', hpre, hadd⟩ | ⟨c', hlog, hadd⟩
   · -- the report would be inside `added`
@@ -85,8 +84,8 @@ theorem not_report_of_plain {added : List Obs} (ha : ∀ o ∈ added, o.isNextOr
   have := ha _ hm
   simp [Obs.isNextOrReport] at this
 
-theorem reportsOk_append_consume {s : QState} {c : Clock} {e : Ent} (h : ReportsOk s.noSubscriber s.log) :
-    ReportsOk s.noSubscriber (s.log ++ consumeObs s c e) := by
+theorem reportsOk_append_consume {s : QState} {c : Clock} {e : Ent} (h : ReportsOk s.log) :
+    ReportsOk (s.log ++ consumeObs s c e) := by
   unfold consumeObs
   split
   · rename_i hcond
@@ -100,7 +99,7 @@ theorem reportsOk_append_consume {s : QState} {c : Clock} {e : Ent} (h : Reports
         obtain ⟨rfl, hrest⟩ := hadd
         cases a'' with
         | nil =>
-          refine ⟨hcond.2.1, s.log, e, ?_⟩
+          refine ⟨s.log, e, ?_⟩
           rw [hpre, hcond.1]
         | cons y a3 =>
           simp at hrest
@@ -113,9 +112,9 @@ theorem reportsOk_append_consume {s : QState} {c : Clock} {e : Ent} (h : Reports
   · exact reportsOk_append_plain h (by simp)
 
 theorem extras_step {s s' : QState} {ev : Ev} (hr : Reachable s) (hn : NextsOk s)
-    (hrep : ReportsOk s.noSubscriber s.log) (h : step s ev = some s') :
-    NextsOk s' ∧ ReportsOk s'.noSubscriber s'.log := by
-  obtain ⟨hlog, hres, hns, _⟩ := step_log h
+    (hrep : ReportsOk s.log) (h : step s ev = some s') :
+    NextsOk s' ∧ ReportsOk s'.log := by
+  obtain ⟨hlog, hres, _, _⟩ := step_log h
   have hmono := pushOrder_mono h
   rcases hlog with ⟨c, e, _, hh, hl⟩ | ⟨added, hl, hadd⟩
   · constructor
@@ -136,7 +135,7 @@ theorem extras_step {s s' : QState} {ev : Ev} (hr : Reachable s) (hn : NextsOk s
           split at h1 <;> simp at h1 <;> exact h1
         rw [this.1, this.2, hres]
         exact ⟨hmono _ hin, rfl⟩
-    · rw [hns, hl]; exact reportsOk_append_consume hrep
+    · rw [hl]; exact reportsOk_append_consume hrep
   · constructor
     · intro e' r hm
       rw [hl] at hm
@@ -144,17 +143,15 @@ theorem extras_step {s s' : QState} {ev : Ev} (hr : Reachable s) (hn : NextsOk s
       · obtain ⟨h2, h3⟩ := hn e' r h1
         exact ⟨hmono _ h2, by rw [hres]; exact h3⟩
       · have := hadd _ h1; simp [Obs.isNextOrReport] at this
-    · rw [hns, hl]; exact reportsOk_append_plain hrep (not_report_of_plain hadd)
+    · rw [hl]; exact reportsOk_append_plain hrep (not_report_of_plain hadd)
 
 /-- **Nothing else reaches the stream.** In every reachable state each `next` call in the history
 carries an entry that was pushed, with that entry's scripted result, and each in-band error report
-directly follows a `next` that returned a validation error, and is written only when no tracing
-subscriber is installed. -/
+directly follows a `next` that returned a validation error. -/
 theorem c01_only_reports_extra {s : QState} (hr : Reachable s) :
     (∀ e r, Obs.next e r ∈ s.log → e ∈ s.pushOrder ∧ r = s.res e) ∧
-    (∀ pre post, s.log = pre ++ Obs.report :: post →
-      s.noSubscriber = true ∧ ∃ pre' e, pre = pre' ++ [Obs.next e .validation]) := by
-  have : Reachable s ∧ NextsOk s ∧ ReportsOk s.noSubscriber s.log := by
+    (∀ pre post, s.log = pre ++ Obs.report :: post → ∃ pre' e, pre = pre' ++ [Obs.next e .validation]) := by
+  have : Reachable s ∧ NextsOk s ∧ ReportsOk s.log := by
     induction hr with
     | init cap res ns =>
       refine ⟨Reachable.init _ _ _, ?_, ?_⟩
@@ -164,6 +161,32 @@ theorem c01_only_reports_extra {s : QState} (hr : Reachable s) :
       obtain ⟨h1, h2, h3⟩ := ih
       exact ⟨Reachable.step h1 hst, extras_step h1 h2 h3 hst⟩
   exact ⟨this.2.1, this.2.2⟩
+
+/-- **The report is written only while no tracing subscriber is installed** — decided at the moment
+of the report, not once: a step appends `report` to the history only if it is the writer handing an
+entry to the stream whose result is a validation error, the rate limiter lets the report through,
+and `noSubscriber` holds in the state *in which that step is taken*. The environment may install or
+remove a subscriber at any time (event `setSubscriber`); after a subscriber has been installed no
+further report is written until it is removed again. -/
+theorem c01_report_only_without_subscriber {s s' : QState} {ev : Ev} (h : step s ev = some s')
+    (hnew : Obs.report ∈ s'.log.drop s.log.length) :
+    s.noSubscriber = true ∧ ∃ c e, ev = .w c ∧ holding s.wpc = [e] ∧ s.res e = .validation ∧ c.limiterFires = true := by
+  rcases (step_log h).1 with ⟨c, e, hev, hh, hl⟩ | ⟨added, hl, hadd⟩
+  · rw [hl] at hnew
+    simp only [List.drop_left] at hnew
+    unfold consumeObs at hnew
+    split at hnew
+    · rename_i hcond
+      exact ⟨hcond.2.1, c, e, hev, hh, hcond.1, hcond.2.2⟩
+    · simp at hnew
+  · rw [hl] at hnew
+    simp only [List.drop_left] at hnew
+    have := hadd _ hnew
+    simp [Obs.isNextOrReport] at this
+
+/-- Installing a subscriber is an event like any other: it changes nothing but the flag. -/
+theorem c01_set_subscriber (s : QState) (present : Bool) :
+    step s (.setSubscriber present) = some { s with noSubscriber := !present } := rfl
 
 /-! ### Stream errors do not prevent, repeat or reorder any other entry -/
 
@@ -258,6 +281,10 @@ theorem sim_step {a b a' : QState} {ev : Ev} (hs : Sim a b) (h : step a ev = som
     rename_i hm
     simp only [hm, if_true]
     exact ⟨_, rfl, by simp [Sim, hlog]⟩
+  | setSubscriber b =>
+    simp only [step] at h ⊢
+    cases h
+    exact ⟨_, rfl, by simp [Sim, hlog]⟩
   | dropJoinBegin =>
     simp only [step] at h ⊢
     split at h <;> cases h
@@ -340,6 +367,7 @@ theorem nlw_step {s s' : QState} {ev : Ev} (hi : NoLostWakeup s) (h : step s ev 
   | clone => simp only [step] at h; split at h <;> cases h; exact hi
   | dropHandle => simp only [step] at h; split at h <;> cases h; exact hi
   | forget => simp only [step] at h; split at h <;> cases h; exact hi
+  | setSubscriber b => simp only [step] at h; cases h; exact hi
   | dropJoinBegin => simp only [step] at h; split at h <;> cases h; exact hi
   | dropJoinUnpark => simp only [step] at h; split at h <;> cases h; simp
   | dropJoinEnd => simp only [step] at h; split at h <;> cases h; exact hi
@@ -448,6 +476,8 @@ end Queue
 #print axioms Queue.c01_exactly_once
 #print axioms Queue.c01_per_producer_order
 #print axioms Queue.c01_only_reports_extra
+#print axioms Queue.c01_report_only_without_subscriber
+#print axioms Queue.c01_set_subscriber
 #print axioms Queue.c01_errors_independent
 #print axioms Queue.c01_no_lost_wakeup
 #print axioms Queue.c01_quiescent_all_delivered
